@@ -14,7 +14,7 @@ Classes == {"valid", "blank", "garbage", "conflict", "nonobject", "truncated", "
             "deep_nesting", "huge_valid_body", "dep_cycle"}
 Positions == {"middle", "last"}
 Commands == {"list", "list_epics", "list_ready", "show", "prune_dry", "where", "quickstart",
-             "claim", "new_task", "set", "compact", "prune", "sequence", "sequence_rm"}
+             "claim", "new_task", "set", "compact", "prune", "sequence", "sequence_rm", "sequence_new"}
 ReadOnly == {"list", "list_epics", "list_ready", "show", "prune_dry", "where", "quickstart"}
 
 \* lines that are not valid JSON (for an Event): the error must name file and line
